@@ -547,6 +547,7 @@ pub fn step_digest(st: &Step) -> u64 {
 
 pub fn run_hist(cfg: &RunCfg, mut src: StepSrc, opts: &HistOpts) -> RunResult {
     ledger_reset();
+    crate::hashers::reset_instances();
     disarm_all();
     reset_counts();
     hashers::set_current(cfg.hasher);
